@@ -1194,6 +1194,12 @@ def gen_history(seed, k, n, tier):
     return {"place": place, "ops": g.ops, "origin": "random", "k": k}, g
 
 
+def _gen_job(args):
+    seed, k, ln, tier = args
+    c, g = gen_history(seed, k, ln, tier)
+    return c, g.avoided
+
+
 def gen_conflict(seed, k):
     """an array parameter whose argument is also written/read by its global name inside the callee
     (Spec != Mech: the *_refuted theorems); the implementation must follow Mech"""
@@ -1254,18 +1260,17 @@ def run(rep):
             c = load_case(c)
             c["origin"] = "corpus"
             cases.append(c)
-    n_rand = 1500 if tier == "quick" else 30000
+    n_rand = 1500 if tier == "quick" else 24000
     maxlen = 60 if tier == "quick" else 90
     avoided = {}
     n_avoid_total = 0
 
-    def mk(k):
-        ln = 8 + (k * 7) % (maxlen - 7)
-        c, g = gen_history(seed, k, ln, tier)
-        return c, g.avoided
-    for c, av in common.pmap(mk, range(n_rand)):
-        cases.append(c)
-        n_avoid_total += av
+    jobs = [(seed, k, 8 + (k * 7) % (maxlen - 7), tier) for k in range(n_rand)]
+    import concurrent.futures
+    with concurrent.futures.ProcessPoolExecutor(max_workers=common.NCPU) as ex:
+        for c, av in ex.map(_gen_job, jobs, chunksize=50):
+            cases.append(c)
+            n_avoid_total += av
     n_conf = 60 if tier == "quick" else 1500
     for k in range(n_conf):
         cases.append(gen_conflict(seed, k))
